@@ -1,2 +1,90 @@
-(* C01 - placeholder: theorems are added in Proofs/TreeProofs.v etc. *)
-From Mkdb Require Import Spec.HistObs.
+(* C01 - Table contents always equal what the statement history implies.
+
+   FULL STATEMENT (C01_full_statement): for every history of statements on a fresh database,
+   SELECT * of every table (computed by the model through its own catalog trees, tuple codec
+   and sibling-chain scans) equals what the plain in-memory specification derives from the
+   acknowledged statements, with strictly increasing row ids.
+
+   STATUS: the full statement is checked on every run by the correspondence (model = Go = spec
+   on seeded histories) but is NOT yet proved in Coq end to end: the part through the catalog
+   encoding is missing. What IS proved, for all histories / trees of any height, is the storage
+   core of the property (theorems C01_partial_x below): nothing is lost, duplicated, reordered or resurrected
+   by page splits; scans return exactly the live cells in insertion order; UPDATE / DELETE touch
+   exactly the addressed cell; row ids are strictly increasing and never shared between tables. *)
+From Coq Require Import List NArith Sorted.
+From Mkdb Require Import Spec.HistObs Proofs.TreeProofs Proofs.StoreInv Properties.C11.
+Import ListNotations.
+Local Open Scope N_scope.
+
+Definition stmts_only (evs : list event) : bool :=
+  forallb (fun e => match e with EvStmt _ => true | _ => false end) evs.
+
+Definition acked_stmts (evs : list event) (os : list (option outcome)) : list stmt :=
+  flat_map (fun eo => match eo with
+                      | (EvStmt st, Some (OOk _)) => [st]
+                      | _ => []
+                      end) (combine evs os).
+
+Definition table_agrees (s : store) (d : db) (n : string) : Prop :=
+  match spec_table d n, st_fetch s n with
+  | Some (cols, rows), Ok (idrows, fs) =>
+      map f_col fs = cols /\ map snd idrows = rows /\ StronglySorted N.lt (map fst idrows)
+  | None, Err ETableNotExist => True
+  | _, _ => False
+  end.
+
+Definition C01_full_statement : Prop :=
+  forall evs y os n,
+    stmts_only evs = true ->
+    run_events init_sys evs = (SOk y, os) ->
+    (forall o, In (Some o) os -> o <> OPanic) ->
+    table_agrees (mem y) (spec_run [] (acked_stmts evs os)) n.
+
+(* ---- proved part ---- *)
+
+(* (a) an insertion above every existing key keeps every existing cell - tombstones included -
+   in place and appends exactly the new cell, through leaf, internal and root splits *)
+Theorem C01_partial_insert_appends : forall free t k lsn (v : bytes),
+  WFT ML MI free t -> Forall (fun x => x < k) (tree_keys t) -> (List.length v <= MV)%nat ->
+  exists t' f',
+    tree_insert ML MI PS MV t k lsn v free = TOk (t', f') /\ WFT ML MI f' t' /\
+    all_cells t' = all_cells t ++ [mkLC k false v] /\
+    Forall (fun x => x <= k) (tree_keys t') /\ free <= f' /\
+    (forall x, In x (offsets_of t') -> In x (offsets_of t) \/ free <= x).
+Proof. exact C11_insert. Qed.
+Print Assumptions C01_partial_insert_appends.
+
+(* (b) a full scan (following the stored sibling offsets, as scanRight does) of any tree of
+   any reachable state returns exactly the live cells in tree (= insertion) order *)
+Theorem C01_partial_scan : forall y t, reachable y -> In t (forest (mem y)) ->
+  scan_right t = TOk (live (all_cells t)).
+Proof.
+  intros y t Hy Hin. destruct (C11_wellformed y Hy) as (A & _). rewrite Forall_forall in A.
+  eapply scan_right_okP. apply A. exact Hin.
+Qed.
+Print Assumptions C01_partial_scan.
+
+(* (c) UPDATE / DELETE / redo of them rewrite exactly the cell with the addressed key, provided
+   the page named is the leaf holding that key; every other cell of the tree is untouched *)
+Theorem C01_partial_touch : forall pg k lsn g t,
+  (forall l c, In l (leaves t) -> In c (leaf_cells l) -> lc_key c = k -> t_off l = pg) ->
+  all_cells (touch_leaf pg k lsn g t) = map_cell k g (all_cells t).
+Proof. exact touch_cells_unique. Qed.
+Print Assumptions C01_partial_touch.
+
+(* (d) row ids: strictly ascending inside every table, and every key or separator anywhere in
+   the file is at most lastKey, so the next row id (lastKey + 1) is new database-wide *)
+Theorem C01_partial_ids : forall y t, reachable y -> In t (forest (mem y)) ->
+  StronglySorted N.lt (keys_of (all_cells t)) /\
+  Forall (fun x => x <= lastKey (mem y)) (tree_keys t).
+Proof.
+  intros y t Hy Hin. split; [eapply C11_keys_ascending; eauto|].
+  destruct Hy as (evs & os & Hnc & Hr). destruct (reachable_inv evs y os Hnc Hr) as [[_ _ K] _].
+  rewrite Forall_forall in K. apply K. exact Hin.
+Qed.
+Print Assumptions C01_partial_ids.
+
+(* (e) no page is shared between tables *)
+Theorem C01_partial_no_leak : forall y, reachable y -> NoDup (all_offsets (forest (mem y))).
+Proof. intros y Hy. apply (C11_wellformed y Hy). Qed.
+Print Assumptions C01_partial_no_leak.
